@@ -8,7 +8,7 @@
 From Ais Require Import Model.Base Model.Enums Model.Fields Model.Messages Model.Unarmor Model.Sentence
   Spec.Layouts Proofs.Bits Proofs.Reads Proofs.Layouts Proofs.Dispatch Proofs.MsgLevel Proofs.Interrogation Model.NomBits Proofs.NomBitsProof.
 From Ais Require Import Spec.Grammar Spec.Armor Proofs.EndToEnd Proofs.UnarmorProof.
-From Ais Require Import Proofs.Encode Proofs.RoundTrip Proofs.RoundTripLists Spec.Transmit Proofs.InOrder Proofs.Transmit Proofs.AirRoundTrip.
+From Ais Require Import Proofs.Encode Proofs.RoundTrip Proofs.RoundTripLists Proofs.RoundTripForms Spec.Transmit Proofs.InOrder Proofs.Transmit Proofs.AirRoundTrip.
 From Coq Require Import Lia.
 Local Open Scope N_scope.
 
@@ -249,6 +249,50 @@ Theorem C04_roundtrip_type20 :
     Ok (DataLinkManagementMessage {| dl_message_type := 20; dl_repeat_indicator := rep; dl_mmsi := mmsi; dl_reservations := map reservation_of rs |}).
 Proof. exact roundtrip_type20. Qed.
 Print Assumptions C04_roundtrip_type20.
+
+(* ---------- round trips for the types whose layout depends on a selector (Proofs/RoundTripForms.v): type 24 part A
+   and part B, type 15 with one station and one request (88 bits) and with two stations (160 bits) ---------- *)
+Theorem C04_roundtrip_type24a :
+  forall c q rep mmsi name post,
+  in_range (fields24a rep mmsi name) ->
+  let bs := enc (fields24a rep mmsi name) ++ post in
+  parse_bits c q bs = Ok (StaticDataReport
+    {| sd_message_type := 24; sd_repeat_indicator := rep; sd_mmsi := mmsi; sd_message_part := PartA (text_at bs 40 20) |}).
+Proof. exact roundtrip_type24a. Qed.
+Print Assumptions C04_roundtrip_type24a.
+
+Theorem C04_roundtrip_type24b :
+  forall c q rep mmsi ship vendor model serial callsign bow stern port starboard spare post,
+  in_range (fields24b rep mmsi ship vendor model serial callsign bow stern port starboard spare) ->
+  let bs := enc (fields24b rep mmsi ship vendor model serial callsign bow stern port starboard spare) ++ post in
+  parse_bits c q bs = Ok (StaticDataReport
+    {| sd_message_type := 24; sd_repeat_indicator := rep; sd_mmsi := mmsi;
+       sd_message_part := PartB (ship_type_parse ship) (text_at bs 48 3) (text_at bs 66 4) model serial (text_at bs 90 7)
+                                bow stern port starboard |}).
+Proof. exact roundtrip_type24b. Qed.
+Print Assumptions C04_roundtrip_type24b.
+
+Theorem C04_roundtrip_type15_88 :
+  forall c q rep mmsi sp mmsi1 t11 o11,
+  in_range (fields15_88 rep mmsi sp mmsi1 t11 o11) ->
+  parse_bits c q (enc (fields15_88 rep mmsi sp mmsi1 t11 o11)) = Ok (Interrogation
+    {| in_message_type := 15; in_repeat_indicator := rep; in_mmsi := mmsi;
+       in_stations := [{| is_mmsi := mmsi1; is_messages := [{| im_message_type := t11; im_slot_offset := opt_nz o11 |}] |}] |}).
+Proof. exact roundtrip_type15_88. Qed.
+Print Assumptions C04_roundtrip_type15_88.
+
+Theorem C04_roundtrip_type15_160 :
+  forall c q rep mmsi sp mmsi1 t11 o11 sp2 t12 o12 sp3 mmsi2 t21 o21 sp4,
+  in_range (fields15_160 rep mmsi sp mmsi1 t11 o11 sp2 t12 o12 sp3 mmsi2 t21 o21 sp4) ->
+  parse_bits c q (enc (fields15_160 rep mmsi sp mmsi1 t11 o11 sp2 t12 o12 sp3 mmsi2 t21 o21 sp4)) = Ok (Interrogation
+    {| in_message_type := 15; in_repeat_indicator := rep; in_mmsi := mmsi;
+       in_stations :=
+         [{| is_mmsi := mmsi1;
+             is_messages := if negb (t12 =? 0) || (match opt_nz o12 with Some _ => true | None => false end)
+                            then [request t11 o11; request t12 o12] else [request t11 o11] |};
+          {| is_mmsi := mmsi2; is_messages := [request t21 o21] |}] |}).
+Proof. exact roundtrip_type15_160. Qed.
+Print Assumptions C04_roundtrip_type15_160.
 
 (* BEGIN generated round trips *)
 (* ---------- round trips from field values (generated by tools/gen_roundtrip.py; proofs in Proofs/RoundTrip.v) ----------
